@@ -82,5 +82,10 @@ def _still_param(fa: FA, name_node, st, p, params) -> bool:
                 continue
             if d.kind == "assign" and isinstance(d.value, ast.Name) and d.value.id in params:
                 continue
+            # `p = p if p is not None else {}` / `p = p or {}`: still the caller's object whenever one was given
+            if d.kind == "assign" and isinstance(d.value, (ast.IfExp, ast.BoolOp)) and any(
+                    isinstance(x, ast.Name) and x.id in params for x in
+                    ([d.value.body, d.value.orelse] if isinstance(d.value, ast.IfExp) else d.value.values)):
+                continue
             return False
     return True
